@@ -75,14 +75,19 @@ func NewFloatFromString(typ *types.FloatType, s string) (*Float, error) {
 			// > The 80-bit format used by x86 is represented as 0xK followed by 20
 			// > hexadecimal digits.
 			hex := strings.TrimPrefix(s, "0xK")
-			const hexLen = 8
-			part1 := hex[:hexLen/2]
-			part2 := hex[hexLen/2:]
-			se, err := strconv.ParseUint(part1, 16, 16)
+			// Note, like LLVM, take (up to) the first 4 hexadecimal digits as sign
+			// and exponent and the (up to) 16 following ones as mantissa; fewer
+			// than 20 digits may be given.
+			const seLen = 4
+			part1, part2 := hex, ""
+			if len(hex) > seLen {
+				part1, part2 = hex[:seLen], hex[seLen:]
+			}
+			se, err := parseHexWord(part1, 16)
 			if err != nil {
 				return nil, errors.WithStack(err)
 			}
-			m, err := strconv.ParseUint(part2, 16, 64)
+			m, err := parseHexWord(part2, 64)
 			if err != nil {
 				return nil, errors.WithStack(err)
 			}
@@ -96,22 +101,16 @@ func NewFloatFromString(typ *types.FloatType, s string) (*Float, error) {
 			// > The IEEE 128-bit format is represented by 0xL followed by 32
 			// > hexadecimal digits.
 			hex := strings.TrimPrefix(s, "0xL")
-			const maxHexLen = 32
-			if len(hex) < maxHexLen {
-				// pad with leading zeroes (e.g. for case like `0xL01`)
-				hex = strings.Repeat("0", maxHexLen-len(hex)) + hex
-			}
 			// Note, the first 16 hexadecimal digits hold the low 64 bits of the
 			// IEEE 754 quadruple precision binary representation, and the last 16
 			// hexadecimal digits hold the high 64 bits (sign, exponent and most
 			// significant bits of the mantissa).
-			part1 := hex[:maxHexLen/2]
-			part2 := hex[maxHexLen/2:]
-			b, err := strconv.ParseUint(part1, 16, 64)
+			part1, part2 := splitHexWords(hex)
+			b, err := parseHexWord(part1, 64)
 			if err != nil {
 				return nil, errors.WithStack(err)
 			}
-			a, err := strconv.ParseUint(part2, 16, 64)
+			a, err := parseHexWord(part2, 64)
 			if err != nil {
 				return nil, errors.WithStack(err)
 			}
@@ -125,14 +124,12 @@ func NewFloatFromString(typ *types.FloatType, s string) (*Float, error) {
 			// > The 128-bit format used by PowerPC (two adjacent doubles) is
 			// > represented by 0xM followed by 32 hexadecimal digits.
 			hex := strings.TrimPrefix(s, "0xM")
-			const maxHexLen = 32
-			part1 := hex[:maxHexLen/2]
-			part2 := hex[maxHexLen/2:]
-			a, err := strconv.ParseUint(part1, 16, 64)
+			part1, part2 := splitHexWords(hex)
+			a, err := parseHexWord(part1, 64)
 			if err != nil {
 				return nil, errors.WithStack(err)
 			}
-			b, err := strconv.ParseUint(part2, 16, 64)
+			b, err := parseHexWord(part2, 64)
 			if err != nil {
 				return nil, errors.WithStack(err)
 			}
@@ -467,4 +464,25 @@ func (c *Float) Ident() string {
 		}
 	}
 	return s
+}
+
+// splitHexWords splits the hexadecimal digits of an fp128 or ppc_fp128 literal
+// into its first and second 64-bit word the way LLVM does, as fewer than 32
+// digits may be given: with at least 16 digits, the first 16 digits make up the
+// first word and the remaining ones the second word; with less than 16 digits,
+// the first word is zero and the digits make up the second word.
+func splitHexWords(hex string) (first, second string) {
+	const wordLen = 16
+	if len(hex) >= wordLen {
+		return hex[:wordLen], hex[wordLen:]
+	}
+	return "", hex
+}
+
+// parseHexWord parses the given hexadecimal digits; no digits denote zero.
+func parseHexWord(hex string, bitSize int) (uint64, error) {
+	if len(hex) == 0 {
+		return 0, nil
+	}
+	return strconv.ParseUint(hex, 16, bitSize)
 }
